@@ -226,6 +226,28 @@ def user(x):
         x = x + {c}
     return x + probe()
 ''',
+    # constructs rewritten only by the OPTIONAL passes (LISTS: append / subscript store; ASSERT_STATEMENTS: assert)
+    'listy': '''
+G = {g}
+def build(n):
+    l = []
+    i = 0
+    while i < n:
+        l.append(i * {c})
+        i = i + 1
+    if n > 1:
+        l[0] = G
+    assert n >= 0, 'negative'
+    return l
+def make(k):
+    def pick(n):
+        l = [k, G]
+        l.append(n)
+        assert len(l) == 3
+        l[1] = n + {d}
+        return l
+    return pick
+''',
     # not convertible (for/else): transform_ast raises, nothing is cached, every request retries
     'broken': '''
 G = {g}
@@ -393,6 +415,11 @@ class Group(object):
         elif kind == 'inplace':
             out += [Fn(ns['scale'], [(3,), (0,)], 'edited in place: scale', pure=True),
                     Fn(ns['make'](2), [(5,), (1,)], 'edited in place: closure shift', pure=True)]
+        elif kind == 'listy':
+            # not `pure`: on the pinned tree the ASSERT_STATEMENTS pass emits a call of a missing operator (not C10's
+            # concern); these functions are compared with the reference conversion only (behaviour + generated source)
+            out += [Fn(ns['build'], [(3,), (0,)], 'list append / subscript store / assert'),
+                    Fn(ns['make'](5), [(2,), (9,)], 'closure with list append / subscript store / assert')]
         elif kind == 'wrapped':
             import copy as _copy
             out += [Fn(ns['passthrough'](ns['user']), [(3,), (0,)], 'functools.wraps wrapper around user code'),
@@ -919,7 +946,22 @@ class Installed(object):
         tr = api.PyToPy()
         rec.wkd = LoggingWKD(rec)
         tr._cache._cache = rec.wkd
-        tr._cache_lock = LoggingLock(rec, tr._cache_lock)
+        if getattr(tr, '_cache_lock', None) is not None:
+            tr._cache_lock = LoggingLock(rec, tr._cache_lock)
+        else:
+            # the lock structure of the transpiler changed: outside the model; observe what can be observed
+            rec.unexpected.append('the transpiler has no `_cache_lock` (lock structure changed)')
+            lock_for = getattr(tr, '_cache_lock_for', None)
+            if callable(lock_for):
+                proxies = {}
+
+                def logging_lock_for(fn):
+                    real = lock_for(fn)
+                    p = proxies.get(id(real))
+                    if p is None or p.real is not real:
+                        p = proxies[id(real)] = LoggingLock(rec, real)
+                    return p
+                tr._cache_lock_for = logging_lock_for
         orig_tf = tr.transform_function
         orig_ast = tr.transform_ast
 
